@@ -30,7 +30,7 @@ ASSUMPTIONS = ['filelock.FileLock is a mutex across threads and processes (repla
 TRUSTED = ['modelled, not verified: json/orjson round-trip of {"key": k, "value": int}; CPython threads only run when granted '
            '(semaphore hand-off), so the enumeration is exhaustive for the scheduling points above, not for byte-level preemption']
 
-KEY = 'kéy/\x00'
+KEY = 'ke\u0301y/\x00'          # (the accent as a combining character: a key is the text given, not a normal form of it)
 MAX_STEPS = 120
 
 
